@@ -252,6 +252,11 @@ def record(src):
         rows = _rows(n)
         tri = lambda v: DontCare if v == 2 else bool(v)
         code = lambda v: 2 if v == DontCare else (1 if v is True else 0 if v is False else 3)
+        # model data often arrives from elsewhere: every fourth table went through copy.deepcopy, every fourth through
+        # pickle - its don't-care markers are then equal to, but not the same object as, cirbo.core.logic.DontCare
+        import copy as _copy
+        import pickle as _pickle
+        thru = [lambda x: x, _copy.deepcopy, lambda x: _pickle.loads(_pickle.dumps(x)), lambda x: x][src['ds'] % 4]
         defs = [{'r': ri, 'o': o + 1, 'v': r.randint(0, 1)} for o in range(m) for ri in range(2 ** n) if mtt[o][ri] == 2]
         case = {'kind': 'model', 'n': n, 'm': m, 'mtt': mtt, 'defs': defs, 'rep': src['rep'], 'exc': '', 'src': src,
                 'chk': [], 'chk_at': [], 'gmtt': [], 'res': []}
@@ -261,11 +266,11 @@ def record(src):
                 if v == 1:      # rows spelled as strings over 0 / 1 / *
                     model = TruthTableModel([''.join('*' if x == 2 else str(x) for x in row) for row in mtt])
                 elif v == 2:    # integers and DontCare
-                    model = TruthTableModel([[DontCare if x == 2 else int(x) for x in row] for row in mtt])
+                    model = TruthTableModel(thru([[DontCare if x == 2 else int(x) for x in row] for row in mtt]))
                 else:
-                    model = TruthTableModel([[tri(v_) for v_ in row] for row in mtt])
+                    model = TruthTableModel(thru([[tri(v_) for v_ in row] for row in mtt]))
             else:
-                cols = [[tri(mtt[o][ri]) for o in range(m)] for ri in range(2 ** n)]
+                cols = thru([[tri(mtt[o][ri]) for o in range(m)] for ri in range(2 ** n)])
 
                 stored = (n + sum(sum(row) for row in mtt)) % 3 == 0   # the callable hands out its own stored rows
                 as_tuple = (n + sum(sum(row) for row in mtt)) % 3 == 1   # ... or answers with tuples (a legal Sequence)
